@@ -86,14 +86,26 @@ def run(prog, chk):
                         if len(fs) == 1 and any('uniform_real_distribution<' in x.get('type', '') for x in SX.walk(fs[0].body) if x['k'] == 'var'):
                             one_decl, helper = v, (fs[0], init)
     if one_decl is None:
+        # a draw made inside a helper this rule does not model (e.g. `sampleUnit()` used in the middle of a short-circuit
+        # expression) is not "no draw": say that the form is not analysed instead of reporting a projection-style reset
+        for n_ in SX.walk(rs.body, into_lambdas=False):
+            if n_['k'] in ('call', 'mcall'):
+                for h_ in prog.resolve(n_):
+                    if h_.body and h_.file == rs.file and any('uniform_real_distribution<' in x.get('type', '') for x in SX.walk(h_.body) if x['k'] == 'var'):
+                        raise AnalysisBroken('reset draws its random number through %s in a form this rule does not model' % h_.short)
         chk.ob('R04.1', rs, rs.ln, False,
                'reset does not draw from the random generator: a projection-style reset post-selects the partners of an entangled target '
                '(e.g. Bell pair, reset one half: the partner then reads 0 with certainty instead of 50/50)', key='samples')
         return
     if len(loops) != 2:
         raise AnalysisBroken('reset: expected an accumulation loop and an update loop, found %d loops' % len(loops))
-    l1 = KP.full_state_loop(loops[0], amp)
-    l2 = KP.full_state_loop(loops[1], amp)
+    aliases = KP.size_aliases(rs.body, amp)
+    sw1 = KP.state_sweep(loops[0], amp, bit_ids, aliases)
+    sw2 = KP.state_sweep(loops[1], amp, bit_ids, aliases)
+    if sw1 is not None and sw1[0] != 'flat':
+        raise AnalysisBroken('reset: a blocked accumulation sweep is not recognised')
+    l1 = (sw1[1], sw1[2]) if sw1 else None
+    l2 = sw2
     if l1 is None or l2 is None:
         why = [KP.partial_state_loop(l, amp) for l, x in ((loops[0], l1), (loops[1], l2)) if x is None]
         if all(why):
@@ -230,7 +242,7 @@ def run(prog, chk):
     # ---- per-pair transformer ------------------------------------------------------------------
     for one in (True, False):
         scal = {p0_id[0]: p0, p1_id[0]: p1}
-        it = KP.PairIter(amp, l2[0]['id'], bit_ids, scal, {one_decl['id']: one})
+        it = KP.PairIter(amp, None, bit_ids, scal, {one_decl['id']: one})
         try:
             it.b = 0
             seen_one = False
@@ -241,7 +253,7 @@ def run(prog, chk):
                             seen_one = True
                         elif seen_one and v['type'] == 'double':
                             it.scalars[v['id']] = it.amp_expr(v['init'])
-            fin = KP.pair_final(it, l2[1])
+            fin = KP.sweep_final(it, l2)
         except KP.OutsidePair as e:
             chk.ob('R04.2', rs, loops[1].get('ln', rs.ln), False, 'the update loop acts on the pair (i, i|2^q) of the swept index: %s' % e, key='transform:cells')
             return
